@@ -574,7 +574,7 @@ def plan_scaled(chunk, counter, quick):
         for e in exps:
             if c["solver"] == "randomized" and e < 0:
                 smin = res.get("smin")
-                if not smin or smin <= 0:
+                if not smin or smin != smin or smin <= 0 or smin == float("inf"):
                     continue
                 # matrix scale 2^(b_exp): need smin * 2^bexp >= 4 * cut-off
                 per = 1 if c["meth"] == "kpca" else 2
@@ -809,8 +809,8 @@ def factor_tolerances(lamn, solver, kappa_gs=None):
         kappa = (lmax / min(pos)) if pos else 1.0
         if kappa_gs is not None and kappa_gs == kappa_gs and kappa_gs != float("inf"):
             kappa = max(kappa, kappa_gs)
-        tau_o = max(1e-9, 1e3 * EPS * kappa)
-        tau_n = max(1e-9, 1e4 * EPS * kappa)
+        tau_o = min(0.05, max(1e-9, 1e3 * EPS * kappa))      # capped: beyond kappa ~ 2e11 the check would be blind
+        tau_n = min(0.5, max(1e-9, 1e4 * EPS * kappa))
     m = [math.sqrt(max(x, 0.0)) for x in lamn]
     T1 = [[min(uni, (tau_n if a == b else tau_o) * m[a] * m[b] + tau_abs * lmax) for b in range(d)] for a in range(d)]
     T2 = [min(uni, tau_n * lmax * m[c] + tau_abs * lmax ** 1.5) for c in range(d)]
@@ -935,7 +935,7 @@ def eval_e2e(ctx, exe, mexe, cases, tab, stats, report=True):
                 smin = min(norms)
                 Y0 = matmul(Bi, Of)
                 cmax = max(math.sqrt(math.fsum(Y0[t][cc] ** 2 for t in range(n))) for cc in range(d))
-                kappa_gs = (cmax / smin) if smin > 0 else None
+                kappa_gs = (cmax / smin) if (smin > 0 and not fired) else None
                 ambiguous = abs(smin - GS_CUTOFF) <= 1e-6 * GS_CUTOFF
                 stats["gs_replays"] = stats.get("gs_replays", 0) + 1
                 if fired:
